@@ -327,6 +327,14 @@ def shard_main(argv: List[str]) -> int:
     try:
         ensure_sut()
         mod = load_module(spec["prop"])
+        if "replay" in spec:
+            data = json.load(open(spec["replay"]["path"]))
+            v = replay_entry(mod, spec["replay"]["check"] or data.get("check"), data["case"], known=())
+            res = {"harness_error": None, "reproduced": v is not None, "bucket": v.bucket if v else None,
+                   "message": v.message if v else None, "detail": v.detail if v else None}
+            with open(out, "w") as fh:
+                fh.write(canon(res))
+            return 0
         phase = [p for p in mod.phases(spec["tier"]) if p.name == spec["phase"]][0]
         ctx = ShardCtx(spec["prop"], spec["tier"], spec["seed"], spec["shard"], phase.shards, phase.name,
                        phase.params, spec["known"], spec["budget_s"])
@@ -383,25 +391,44 @@ def run_check(prop: str, tier: str, seed: int) -> int:
     known_lines: List[str] = []
     replays = []
 
-    # 1. replay the committed reproducers (full check, no exclusions)
-    for e in entries:
-        if not e.repro:
-            continue
-        path = os.path.join(ROOT, e.repro)
-        data = json.load(open(path))
-        v = replay_entry(mod, e.check or data.get("check"), data["case"], known=())
-        if e.kind == "known":
-            if v is not None:
-                known_lines.append(f"KNOWN-FINDING: property={prop} sig={e.sig} {e.text}")
-                replays.append({"sig": e.sig, "kind": "known", "reproduced": True, "bucket": v.bucket})
+    # 1. replay the committed reproducers (full check, no exclusions), each in its own process: a reproducer may
+    #    abort the interpreter
+    rtmp = tempfile.mkdtemp(prefix=f"vfw-{prop}-replay-")
+    procs = []
+    try:
+        for k, e in enumerate(entries):
+            if not e.repro:
+                continue
+            out = os.path.join(rtmp, f"replay-{k}.json")
+            spec = {"prop": prop, "tier": tier, "seed": seed, "out": out,
+                    "replay": {"path": os.path.join(ROOT, e.repro), "check": e.check}}
+            procs.append((e, out, _spawn(spec)))
+        for e, out, p in procs:
+            rc = p.wait()
+            data = json.load(open(os.path.join(ROOT, e.repro)))
+            if os.path.exists(out):
+                r = json.load(open(out))
+                if r.get("harness_error"):
+                    raise HarnessError(f"replay of {e.repro} failed: {r['harness_error'][-1500:]}")
+                reproduced, bucket, message, detail = r["reproduced"], r["bucket"], r["message"], r["detail"]
+            elif rc is not None and rc < 0:
+                tail = open(out + ".stderr", "rb").read()[-200:].decode("utf-8", "replace")
+                reproduced, bucket, message, detail = True, f"process-crash:signal{-rc}", f"the process died with signal {-rc}: {tail}", None
             else:
-                print(f"NOTE: known finding sig={e.sig} no longer reproduces from {e.repro}")
-                replays.append({"sig": e.sig, "kind": "known", "reproduced": False})
-        else:
-            if v is not None:
-                violations.append({"bucket": f"regression-{e.sig}", "message": f"fixed finding is back: {v.message}",
-                                   "check": data.get("check") or e.check, "case": data["case"], "detail": v.detail})
-            replays.append({"sig": e.sig, "kind": "fixed", "reproduced": v is not None})
+                raise HarnessError(f"replay of {e.repro} produced no result (rc={rc})")
+            if e.kind == "known":
+                if reproduced:
+                    known_lines.append(f"KNOWN-FINDING: property={prop} sig={e.sig} {e.text}")
+                else:
+                    print(f"NOTE: known finding sig={e.sig} no longer reproduces from {e.repro}")
+                replays.append({"sig": e.sig, "kind": "known", "reproduced": reproduced, "bucket": bucket})
+            else:
+                if reproduced:
+                    violations.append({"bucket": f"regression-{e.sig}", "message": f"fixed finding is back: {message}",
+                                       "check": e.check or data.get("check"), "case": data["case"], "detail": detail})
+                replays.append({"sig": e.sig, "kind": "fixed", "reproduced": reproduced})
+    finally:
+        shutil.rmtree(rtmp, ignore_errors=True)
 
     # 2. generated search
     tmp = tempfile.mkdtemp(prefix=f"vfw-{prop}-")
